@@ -23,7 +23,9 @@ def run_generic(pid, rep, spec, pf, verbose=False, only=None):
 
 def _patterns_C06(rep, spec, verbose=False, only=None):
     from . import patterns
-    return patterns.run_patterns(rep, spec, tier=rep.tier, verbose=verbose, only=only)
+    obls = patterns.run_patterns(rep, spec, tier=rep.tier, verbose=verbose, only=only)
+    obls += patterns.run_c06_int64_float(rep, spec, verbose=verbose, only=only)
+    return obls
 
 def _patterns_C08(rep, spec, verbose=False, only=None):
     from . import patterns
